@@ -1449,6 +1449,19 @@ class BaseInterpreter(Generic[TContext, TEvent]):
             )
         registry[system_id] = actor
 
+    def _unregister_from_system(self) -> None:
+        """Drops every `systemId` of this actor from the actor-system registry.
+
+        Called from `stop()`: a stopped actor must not stay addressable by
+        `systemId`. `stopChild` unregistered only its direct target, so the
+        target's registered descendants (and every actor stopped through a
+        parent's `stop()`) stayed in `system.get_all()` forever.
+        """
+        registry = self._system_registry()
+        for system_id, candidate in list(registry.items()):
+            if candidate is self:
+                del registry[system_id]
+
     def _resolve_delay(self, spec: Any, event: Any) -> Optional[float]:
         """Resolves a delay specification to milliseconds.
 
